@@ -37,6 +37,8 @@ Envelope(e) ==
   ELSE IF ~T.nopid /\ Cardinality(al) = 1 /\ (e.base \notin al \/ e.two # "none") THEN "PidFileNotUnderConfiguredName"
   \* when the last master has gone (by the operator's stop signal) the socket file it created is gone too
   ELSE IF T.unix /\ al = {} /\ e.sock /\ lastExit # "none" /\ cause[lastExit] = "op" THEN "SocketFileLeftBehind"
+  \* ... and so is its pid file, under whichever of the two names
+  ELSE IF ~T.nopid /\ al = {} /\ (e.base # "none" \/ e.two # "none") /\ lastExit # "none" /\ cause[lastExit] = "op" THEN "PidFileLeftBehind"
   \* judged on the operator's ops alone (cause / wantServe are history of the ops, not inferred state)
   ELSE IF \E m \in M : st[m] # "none" /\ m \notin al /\ cause[m] = "none" THEN "MasterDiedUnasked"
   ELSE IF (\E m \in al : wantServe[m]) /\ ~(\E m \in al : wantServe[m] /\ m \in ToSet(e.serving)) THEN "NotServingAfterRestore"
